@@ -11,7 +11,7 @@ from .refsem import same, step_at
 # operators the dense-time monitors support
 DENSE = Profile(events=(), un_temp=('once', 'historically', 'eventually', 'always'),
                 bin_temp=('since', 'until'), tun=F.TUN_PAST + F.TUN_FUT, tbin=('since', 'until'),
-                max_depth=3, max_bound=8, nvars=2)
+                max_depth=4, max_bound=8, nvars=2)
 DENSE_PAST = DENSE.copy(un_temp=('once', 'historically'), bin_temp=('since',), tun=F.TUN_PAST, tbin=('since',))
 
 QUANTA = {'quick': [Fraction(1, 4)], 'thorough': [Fraction(1, 4), Fraction(1, 8), Fraction(1, 2)]}
